@@ -242,10 +242,17 @@ def _protocol_worker(
     except ZeroDivisionError:
         res = Result(Exception())
 
-    time_points = np.linspace(
-        0,
-        protocol.index[-1].total_seconds(),
-        len(protocol) * time_points_per_step,
+    # The time points of a successful simulation: the start and then
+    # `time_points_per_step` points for every step of the protocol
+    step_ends = [0.0, *protocol.index.total_seconds()]
+    time_points = np.concatenate(
+        [
+            [0.0],
+            *(
+                np.linspace(t0, t1, time_points_per_step + 1)[1:]
+                for t0, t1 in zip(step_ends[:-1], step_ends[1:], strict=True)
+            ),
+        ]
     )
     return res.default(lambda: Simulation.default(model=model, time_points=time_points))
 
@@ -283,7 +290,15 @@ def _protocol_time_course_worker(
     except ZeroDivisionError:
         res = Result(Exception())
 
-    return res.default(lambda: Simulation.default(model=model, time_points=time_points))
+    # The time points of a successful simulation: the start, the requested points
+    # inside the protocol and the ends of the protocol steps
+    step_ends = np.asarray(protocol.index.total_seconds(), dtype=float)
+    requested = np.asarray(time_points, dtype=float)
+    inside = requested[(requested > 0) & (requested <= step_ends[-1])]
+    all_time_points = np.unique(np.concatenate([[0.0], inside, step_ends]))
+    return res.default(
+        lambda: Simulation.default(model=model, time_points=all_time_points)
+    )
 
 
 @dataclass(kw_only=True, slots=True)
